@@ -1055,9 +1055,9 @@ def shard(ctx):
                   exhaustive_name="every chain of three encodings (utf-8, euc-jp, iso8859-1, gbk, ascii; neighbours differ) x "
                                   "wrap x align x width 1..6 x str/bytes laid out with only urwid.set_encoding in between")
     if ctx.failure is None:
-        ctx.given("switch", _switch_strategy(), ctx.scale(200, 5000), nontrivial=switch_nontrivial, classify=switch_classify)
+        ctx.given("switch", _switch_strategy(), ctx.scale(200, 3000), nontrivial=switch_nontrivial, classify=switch_classify)
     if ctx.failure is None:
-        ctx.given("big", _big_strategy(), ctx.scale(320, 6000), nontrivial=big_nontrivial, classify=big_classify)
+        ctx.given("big", _big_strategy(), ctx.scale(320, 4000), nontrivial=big_nontrivial, classify=big_classify)
     widths = range(1, 9)
     maxlen = ctx.scale(5, 6)
     if ctx.failure is None:
